@@ -6,6 +6,8 @@ package main
 
 import (
 	"fmt"
+	"math"
+	"time"
 	"go/ast"
 	"go/constant"
 	"go/token"
@@ -234,10 +236,13 @@ func (w *World) mutatedTypes() map[string]string {
 				if !ok {
 					continue
 				}
+				// find the root of the address chain; stores into objects allocated by
+				// this very function (initialisation of fresh objects) are not mutations
 				cur := st.Addr
+				var touched []string
 				for {
 					if fa, ok := cur.(*ssa.FieldAddr); ok {
-						w.gt.mutableTypes[structKey(deref(fa.X.Type()))] = fn.String()
+						touched = append(touched, structKey(deref(fa.X.Type())))
 						cur = fa.X
 						continue
 					}
@@ -250,7 +255,13 @@ func (w *World) mutatedTypes() map[string]string {
 					}
 					break
 				}
-				w.gt.mutableTypes[structKey(deref(cur.Type()))] = fn.String()
+				if _, isAlloc := cur.(*ssa.Alloc); isAlloc {
+					continue
+				}
+				touched = append(touched, structKey(deref(cur.Type())))
+				for _, t := range touched {
+					w.gt.mutableTypes[t] = fn.String()
+				}
 			}
 		}
 	}
@@ -412,6 +423,15 @@ func (ie *initEval) eval(x ast.Expr, t types.Type) []string {
 			if cl, ok := x.X.(*ast.CompositeLit); ok {
 				return []string{ie.staticObject(cl, t.Underlying().(*types.Pointer).Elem())}
 			}
+		}
+	case *ast.CallExpr:
+		if r, ok := ie.evalKnownCall(x, t); ok {
+			return r
+		}
+	case *ast.BinaryExpr:
+		// arithmetic on floating-point values built from math.Pow (latlng.go factors)
+		if f, ok := ie.floatExpr(x); ok {
+			return ie.vc.constVal(t, constant.MakeFloat64(f)).L
 		}
 	case *ast.Ident, *ast.SelectorExpr:
 		// reference to another package-level variable (e.g. binary.LittleEndian)
@@ -686,3 +706,89 @@ func (vc *VC) staticAxiomsFor(name string) {
 
 var _ = constant.MakeBool
 var _ = sort.Strings
+
+// evalKnownCall evaluates the few non-constant initialiser calls whose value
+// the verifier computes itself (listed as assumptions).
+func (ie *initEval) evalKnownCall(x *ast.CallExpr, t types.Type) ([]string, bool) {
+	info := ie.pkg.TypesInfo
+	se, ok := x.Fun.(*ast.SelectorExpr)
+	if !ok {
+		return nil, false
+	}
+	pk, ok := se.X.(*ast.Ident)
+	if !ok {
+		return nil, false
+	}
+	pn, ok := info.Uses[pk].(*types.PkgName)
+	if !ok {
+		return nil, false
+	}
+	switch pn.Imported().Path() + "." + se.Sel.Name {
+	case "time.Date":
+		if len(x.Args) != 8 {
+			return nil, false
+		}
+		var v [7]int64
+		for i := 0; i < 7; i++ {
+			c, ok := constInt(info, x.Args[i])
+			if !ok {
+				return nil, false
+			}
+			v[i] = c
+		}
+		if ls, ok := x.Args[7].(*ast.SelectorExpr); !ok || ls.Sel.Name != "UTC" {
+			return nil, false
+		}
+		tm := time.Date(int(v[0]), time.Month(v[1]), int(v[2]), int(v[3]), int(v[4]), int(v[5]), int(v[6]), time.UTC)
+		ie.w.initNotes["time.Date(...) in a package-level initialiser is evaluated by the verifier's own time package"] = true
+		u := tm.Unix()
+		return []string{bvLit(64, uint64(u)), bvLit(64, uint64(tm.Nanosecond())), bvLit(64, 0), bvLit(64, utcZoneId)}, true
+	}
+	if f, ok := ie.floatExpr(x); ok {
+		return ie.vc.constVal(t, constant.MakeFloat64(f)).L, true
+	}
+	return nil, false
+}
+
+// floatExpr evaluates float64 expressions over constants and math.Pow.
+func (ie *initEval) floatExpr(x ast.Expr) (float64, bool) {
+	info := ie.pkg.TypesInfo
+	if tv, ok := info.Types[x]; ok && tv.Value != nil {
+		f, _ := constant.Float64Val(constant.ToFloat(tv.Value))
+		return f, true
+	}
+	switch x := x.(type) {
+	case *ast.ParenExpr:
+		return ie.floatExpr(x.X)
+	case *ast.BinaryExpr:
+		a, ok1 := ie.floatExpr(x.X)
+		b, ok2 := ie.floatExpr(x.Y)
+		if !ok1 || !ok2 {
+			return 0, false
+		}
+		switch x.Op {
+		case token.ADD:
+			return a + b, true
+		case token.SUB:
+			return a - b, true
+		case token.MUL:
+			return a * b, true
+		case token.QUO:
+			return a / b, true
+		}
+	case *ast.CallExpr:
+		if se, ok := x.Fun.(*ast.SelectorExpr); ok && se.Sel.Name == "Pow" && len(x.Args) == 2 {
+			if pk, ok := se.X.(*ast.Ident); ok {
+				if pn, ok := info.Uses[pk].(*types.PkgName); ok && pn.Imported().Path() == "math" {
+					a, ok1 := ie.floatExpr(x.Args[0])
+					b, ok2 := ie.floatExpr(x.Args[1])
+					if ok1 && ok2 {
+						ie.w.initNotes["math.Pow in a package-level initialiser is evaluated by the verifier's own math package (IEEE float64)"] = true
+						return math.Pow(a, b), true
+					}
+				}
+			}
+		}
+	}
+	return 0, false
+}
